@@ -66,10 +66,22 @@ def w2(tier):
 
 
 def shard(ctx):
-    from ..templates import any_template
+    from ..templates import any_template, t_dup_blocks, t_nested_windows, t_quasi
 
-    prof = StreamProfile(knobs_fn=knobs, script_len=ctx.params["script_len"], op_weights=op_weights(), templates=any_template)
-    prof.template_prob = 0.35
+    def templ(rng):
+        # storage-moving rewrites of duplicated blocks, nested windows and quasi-affine accesses are
+        # where safety is decided by an analysis of context; the rest are the shared templates
+        r = rng.random()
+        if r < 0.25:
+            return t_dup_blocks(rng)
+        if r < 0.35:
+            return t_nested_windows(rng)
+        if r < 0.45:
+            return t_quasi(rng)
+        return any_template(rng)
+
+    prof = StreamProfile(knobs_fn=knobs, script_len=ctx.params["script_len"], op_weights=op_weights(), templates=templ)
+    prof.template_prob = 0.4
     run_stream(ctx, prof, [SafetyMonitor(ctx, ninputs=ctx.params["ninputs"])])
 
 
